@@ -270,6 +270,7 @@ func (d *Decimal) Int64() (int64, error) {
 	}
 	v := integ.Coeff.Int64()
 	for i := int32(0); i < integ.Exponent; i++ {
+		verifLoopTick("int64.scale")
 		v *= 10
 	}
 	if d.Negative {
@@ -739,6 +740,7 @@ func (d *Decimal) Reduce(x *Decimal) (*Decimal, int) {
 	var z, r BigInt
 	d.setBig(&z)
 	for {
+		verifLoopTick("reduce.big")
 		z.QuoRem(&d.Coeff, bigTen, &r)
 		if r.Sign() == 0 {
 			d.Coeff.Set(&z)
